@@ -39,7 +39,7 @@ func init() {
 
 func c02Jobs(tier string) []Job {
 	jobs := []Job{{Name: "used-nonce-bfs", Run: func(r *Run) { c02BFS(r) }}}
-	jobs = append(jobs, Job{Name: "genesis-listed-pairs", Run: c02Genesis})
+	jobs = append(jobs, Job{Name: "genesis-listed-pairs", Run: c02Genesis}, Job{Name: "genesis-listed-pairs-large", Run: c02GenesisLarge})
 	doms := []uint32{0, 1, 255, 256, 0xFF000000, 1<<32 - 1}
 	for _, d := range doms {
 		d := d
@@ -392,6 +392,37 @@ func c02Genesis(r *Run) {
 					r.Class("replay-rejected")
 				}
 			}
+		}
+	}
+}
+
+// c02GenesisLarge: more listed pairs than any default page (100): all of them are reported used
+// by the single query, the list query and the export, and nothing else is.
+func c02GenesisLarge(r *Run) {
+	for _, n := range []int{101, 130} {
+		g := LargeGenesis(n, "used")
+		scn := Scenario{Name: fmt.Sprintf("c02-genesis %d listed pairs", n), Ledger: BaseLedger(), Genesis: g}
+		w := scn.Build(KindDB)
+		r.States++
+		var universe []noncePair
+		listed := map[string]bool{}
+		for _, x := range g.UsedNoncesList {
+			universe = append(universe, noncePair{x.SourceDomain, x.Nonce})
+			listed[nonceKey(x.SourceDomain, x.Nonce)] = true
+		}
+		universe = append(universe, noncePair{0, uint64(n)}, noncePair{2, 0}, noncePair{1, 1 << 40})
+		single, list, export, err := observeUsed(w, universe)
+		r.Evaluations += len(universe)
+		want := strings.Join(sortedKeys(listed), ",")
+		x := scn.Replay("actions", nil)
+		if err != nil {
+			r.Violate("C02 used-nonce query failed", scn.Name+": "+err.Error(), x)
+			continue
+		}
+		r.Distinct(scn.Name)
+		if strings.Join(sortedKeys(single), ",") != want || strings.Join(sortedStrs(list), ",") != want || strings.Join(sortedStrs(export), ",") != want {
+			x.Expected, x.Observed = fmt.Sprintf("%d pairs", n), fmt.Sprintf("single %d, list %d, export %d", len(single), len(list), len(export))
+			r.Violate("C02 pairs listed in genesis are not exactly the pairs reported as used", fmt.Sprintf("%s: single queries report %d, list %d, export %d", scn.Name, len(single), len(list), len(export)), x)
 		}
 	}
 }
